@@ -125,6 +125,18 @@ class sx_set(metaclass=_SetMeta):
     pass
 
 
+class _FrozenSetMeta(type):
+    def __instancecheck__(cls, x):
+        return isinstance(x, frozenset)
+
+    def __call__(cls, init=()):
+        return _sx_mkset(init)      # the model does not enforce immutability
+
+
+class sx_frozenset(metaclass=_FrozenSetMeta):
+    pass
+
+
 class _DictMeta(type):
     def __instancecheck__(cls, x):
         return isinstance(x, (dict, SymDict))
@@ -167,8 +179,32 @@ def sx_hash(x):
     return hash(x)
 
 
+def sx_id(obj):
+    """id() is an environment value: an arbitrary integer, equal for the same live object, different for two objects that are
+    alive at the same time - and possibly equal to the id of an object that has already been freed (address reuse)."""
+    if not core.active():
+        return id(obj)
+    import weakref
+    reg = core.EX.path_data.setdefault("ids", [])
+    for ref, sym, bv in reg:
+        if ref() is obj:
+            return sym
+    n = len(reg)
+    v = z3.BitVec("env_id%s!%d" % (models.ENV.tag, n), 48)
+    for ref, sym, bv in reg:
+        if ref() is not None:
+            core.EX.assume(v != bv)
+    try:
+        ref = weakref.ref(obj)
+    except TypeError:
+        ref = (lambda o: (lambda: o))(obj)     # not weak-referenceable: treated as alive for the rest of the path
+    s_ = SInt.unsigned(v)
+    reg.append((ref, s_, v))
+    return s_
+
+
 BUILTINS = {
-    "int": sx_int, "str": sx_str, "chr": core.sym_chr, "ord": core.sym_ord, "set": sx_set, "dict": sx_dict,
+    "id": sx_id, "frozenset": sx_frozenset, "int": sx_int, "str": sx_str, "chr": core.sym_chr, "ord": core.sym_ord, "set": sx_set, "dict": sx_dict,
     "sorted": sx_sorted, "hex": sx_hex, "hash": sx_hash, "len": sx_len,
 }
 
